@@ -206,7 +206,7 @@ func runC09(c *Ctx) {
 				got, p = r.Got, r.Panic
 				src.calls, src.bytes = r.Calls, r.Bytes
 				switch {
-				case r.Err == "":
+				case !r.HasErr:
 				case r.IsWordLen:
 					err = bip39.ErrWordLen
 				default:
@@ -348,6 +348,7 @@ type countResult struct {
 	N, L      int
 	Got       string
 	Err       string
+	HasErr    bool // the error's text may be empty
 	IsWordLen bool
 	Panic     string
 	Calls     int
@@ -379,6 +380,7 @@ func bigCountsMain(args []string) int {
 		r := countResult{N: cc.N, L: cc.L, Got: got, Panic: p, Calls: src.calls, Bytes: src.bytes}
 		if e != nil {
 			r.Err = e.Error()
+			r.HasErr = true
 			r.IsWordLen = errorsIs(e, bip39.ErrWordLen)
 		}
 		out, _ := json.Marshal(&r)
